@@ -99,17 +99,18 @@ T = {
 
 # rules that protect a value the property is computed from are shared between the checks that depend on it (DESIGN.md section 8, round 4)
 SHARED = {
-    "C01": "; the wrappers never write into callback results, the evaluator is memoryless, create_slacks decided by row semantics",
+    "C01": "; the wrappers never write into callback results, the evaluator is memoryless, create_slacks decided by row semantics; scaled-problem entry exponents; no late-binding closure outlives its loop iteration",
     "C02": "; the wrappers never write into the callback results the status tests are computed from",
     "C04": "; create_slacks decided by its row semantics (abstract interpretation over row types); memoryless evaluator",
     "C05": "; the problem's variable bounds are private copies made at construction",
-    "C06": "; definite assignment, no container changed while iterated over, per-solve construction of the stateful policy objects",
-    "C07": "; no wrapper below the validating evaluator drops entries by a test that is false for NaN",
-    "C10": "; helper objects kept by long-lived objects are immutable too; process-wide numeric settings restored on every exit",
+    "C06": "; definite assignment, no container changed while iterated over, per-solve construction of the stateful policy objects; no dereference of a value the function itself tests against None outside such a test",
+    "C07": "; no wrapper below the validating evaluator drops entries by a test that is false for NaN; the evaluator is memoryless",
+    "C09": "; the evaluator shared by observers and the algorithm is memoryless",
+    "C10": "; helper objects kept by long-lived objects are immutable too; process-wide numeric settings restored on every exit; per-solve re-initialisation dominates the main loop; the inputs of a solve are never written (ownership analysis)",
     "C11": "; an iterate's point and a problem's bounds are copies on every path",
     "C12": "; an iterate's point is its own copy (nothing outside can move it between announcements)",
     "C13": "; memoryless evaluator, an iterate's point is its own copy",
-    "C14": "; the shared formulas are functions of their arguments (no memo / work buffer in Iterate, StepFunc, ActiveSet)",
+    "C14": "; the shared formulas are functions of their arguments (no memo / work buffer in Iterate, StepFunc, ActiveSet); cached evaluations are never written; an override resets whatever the base method it replaces resets",
     "C15": "; failures reach the failure path (containment shared with C07)",
     "C16": "; each policy's stored rho starts at params.rho in every solve",
     "C17": "; helper code reachable from the solvers cannot die of a container changed while iterated over",
